@@ -12,6 +12,12 @@ func (a *analysis) debugDump() {
 		return
 	}
 	for _, f := range a.funcs {
+		if pat == "NET" {
+			if len(f.sumAll.acqMay) > 0 || len(f.sumAll.relMay) > 0 {
+				fmt.Fprintf(os.Stderr, "NET %s acqMay=%v acqMust=%v relMay=%v relMust=%v\n", f.name, f.sumAll.acqMay.keys(), f.sumAll.acqMust.keys(), f.sumAll.relMay.keys(), f.sumAll.relMust.keys())
+			}
+			continue
+		}
 		if !strings.Contains(f.name, pat) {
 			continue
 		}
